@@ -16,6 +16,10 @@ pub struct TypeEntry {
     pub leaf_kinds: Vec<Kind>,
     pub faithful: bool,
     pub run: fn(&Plan, RunOpts) -> Outcome,
+    pub run_json: fn(&crate::bytes::JPlan, RunOpts) -> Outcome,
+    /// byte lane: write() calls and text length of a fault-free compact write of 1,2,3,...
+    pub json_wcalls: u32,
+    pub json_len: u32,
     /// fault-free step counts and record layout, per (framing, newtype mode)
     pub probes: Vec<Probe>,
 }
@@ -44,6 +48,9 @@ fn entry<T: Subject>(family: &'static str) -> TypeEntry {
         leaf_kinds,
         faithful: T::faithful(),
         run: run_plan::<T>,
+        run_json: crate::bytes::run_json::<T>,
+        json_wcalls: 0,
+        json_len: 0,
         probes: Vec::new(),
     }
 }
@@ -132,6 +139,10 @@ pub fn registry() -> Vec<TypeEntry> {
             }
         }
         e.probes = probes;
+        let jp = crate::bytes::JPlan::base(&e.name, simple_gen(&e.gen_kinds));
+        let o = (e.run_json)(&jp, RunOpts { trace: true });
+        e.json_wcalls = o.wsteps;
+        e.json_len = o.detail.as_ref().map(|d| d.json_len).unwrap_or(0);
     }
     v
 }
